@@ -772,6 +772,8 @@ func c19ExecRecv(sc c19RecvScenario) (res pbt.Result) {
 	position := map[string]string{} // item -> where it was delivered (for messages)
 	failingBefore := map[string]bool{}
 
+	foreignNewest := map[string]time.Time{} // id / entry key -> newest update time among decodable foreign versions seen so far
+
 	poisoned := func() bool {
 		for _, id := range poisonIDs {
 			if got, _, err := a.sil.Query(ctx, silence.QIDs(id)); err == nil && len(got) > 0 {
@@ -852,11 +854,18 @@ func c19ExecRecv(sc c19RecvScenario) (res pbt.Result) {
 			if w, ok := want.sil[id]; ok && m.Silence.UpdatedAt.AsTime().After(x.ts(w.Upd).AsTime()) {
 				want.exempt[id] = true
 			}
+			// ... or a well-formed version delivered LATER is older than this one (newest update wins)
+			if t := m.Silence.UpdatedAt.AsTime(); t.After(foreignNewest[id]) {
+				foreignNewest[id] = t
+			}
 		}
 		for _, m := range scan.ents {
 			k := c19EntKey(string(m.Entry.GroupKey), m.Entry.Receiver.GroupName, m.Entry.Receiver.Idx)
 			if w, ok := want.ent[k]; ok && m.Entry.Timestamp.AsTime().After(x.ts(w.Ts).AsTime()) {
 				want.exempt[k] = true
+			}
+			if t := m.Entry.Timestamp.AsTime(); t.After(foreignNewest[k]) {
+				foreignNewest[k] = t
 			}
 		}
 		for k := 0; k <= d.Times; k++ {
@@ -873,7 +882,7 @@ func c19ExecRecv(sc c19RecvScenario) (res pbt.Result) {
 	check := func(phase string, n *c19RecvNode, mutes bool) {
 		isPoisoned := poisoned()
 		for id, s := range want.sil {
-			if want.exempt[id] {
+			if want.exempt[id] || foreignNewest[id].After(x.ts(s.Upd).AsTime()) {
 				continue
 			}
 			got, _, err := n.sil.Query(ctx, silence.QIDs(id))
@@ -912,7 +921,7 @@ func c19ExecRecv(sc c19RecvScenario) (res pbt.Result) {
 			}
 		}
 		for k, e := range want.ent {
-			if want.exempt[k] {
+			if want.exempt[k] || foreignNewest[k].After(x.ts(e.Ts).AsTime()) {
 				continue
 			}
 			exp := x.entry(e).Entry
